@@ -729,15 +729,26 @@ func ruleEOFSentinel(p *Program, r *Reporter) {
 					if !((isPos(bo.X) && isLen(bo.Y)) || (isLen(bo.X) && isPos(bo.Y))) {
 						continue
 					}
-					// the EOF block must lie on the "position >= length" side
+					// the EOF block must lie on the "position >= length" side — the
+					// position of the *current* character: the read-ahead position is
+					// one further on, so for it the test is "> length" (with ">=" the
+					// last character of the input would already count as the end, and
+					// a NUL there would be taken for the sentinel)
+					ahead := func(v ssa.Value) bool {
+						u, ok := v.(*ssa.UnOp)
+						return ok && u.Op == token.MUL && fieldKey(u.X) == "lexer.Lexer.readPosition"
+					}
+					strict := ahead(bo.X) || ahead(bo.Y)
 					atEnd := id.Succs[0]
 					switch {
-					case isPos(bo.X) && (bo.Op == token.GEQ || bo.Op == token.GTR || bo.Op == token.EQL):
-					case isLen(bo.X) && (bo.Op == token.LEQ || bo.Op == token.LSS || bo.Op == token.EQL):
-					case isPos(bo.X) && (bo.Op == token.LSS || bo.Op == token.LEQ || bo.Op == token.NEQ):
+					case isPos(bo.X) && (bo.Op == token.GTR || !strict && (bo.Op == token.GEQ || bo.Op == token.EQL)):
+					case isLen(bo.X) && (bo.Op == token.LSS || !strict && (bo.Op == token.LEQ || bo.Op == token.EQL)):
+					case isPos(bo.X) && (bo.Op == token.LEQ || !strict && (bo.Op == token.LSS || bo.Op == token.NEQ)):
 						atEnd = id.Succs[1]
-					case isLen(bo.X) && (bo.Op == token.GTR || bo.Op == token.GEQ || bo.Op == token.NEQ):
+					case isLen(bo.X) && (bo.Op == token.GEQ || !strict && (bo.Op == token.GTR || bo.Op == token.NEQ)):
 						atEnd = id.Succs[1]
+					default:
+						continue
 					}
 					if len(atEnd.Preds) == 1 && (atEnd == b || atEnd.Dominates(b)) {
 						guarded = true
